@@ -10,6 +10,7 @@ import (
 	"fmt"
 	"os"
 	"path/filepath"
+	"reflect"
 	"strings"
 	"sync"
 	"testing"
@@ -22,7 +23,6 @@ import (
 	"github.com/markusressel/fan2go/internal/persistence"
 	"github.com/markusressel/fan2go/internal/verifshim/env"
 	"github.com/markusressel/fan2go/internal/verifshim/mc"
-	"github.com/markusressel/fan2go/internal/verifshim/vsync"
 )
 
 type vxRunCfg struct {
@@ -147,7 +147,9 @@ func vxRunConfigGlobals(parallel bool, rpmSkew int, window int) {
 		MaxRpmDiffForSettledFan:        20,
 		FanResponseDelay:               2,
 	}
-	InitializationSequenceMutex = vsync.Mutex{}
+	// fresh lock for every execution, whatever its type is (a change may turn it into an RWMutex)
+	mv := reflect.ValueOf(&InitializationSequenceMutex).Elem()
+	mv.Set(reflect.Zero(mv.Type()))
 }
 
 // ---------------------------------------------------------------- C03 layer 1
